@@ -95,6 +95,7 @@ struct ListWorld : World {
         if (c14 && op.k == L_ADD && r.chance(1, 10)) op.d |= NULLDATA;
         return op;
     }
+    bool result_is_ambiguous(const Op &op) const override { return op.k == L_REVERSE || op.k == L_CLEAR || (op.k == L_POP && (op.d & 7) == 2)    /* popint: 0 is a value and the failure value */; }
     bool is_mutation(const Op &op) const override { return op.k == L_ADD || op.k == L_POP || op.k == L_REMOVE || op.k == L_REVERSE || op.k == L_CLEAR || op.k == L_SETSIZE; }
 
     void init(const Cfg &c) override { cfg = c; kind = (int)c.get("kind"); threadsafe = c.get("ts") != 0; mt = c.get("mt") != 0; }
@@ -259,8 +260,10 @@ struct ListWorld : World {
             qlist_obj_t o; memset(&o, 0, sizeof o);
             Bytes out; size_t cnt = 0, guard = b->size(b) * 2 + 8; bool failed = false; int fired_seen = sim_fault_fired(), retries = 0;
             for (;;) {
+                void *d0 = o.data;
                 bool more; { InSut s; more = l->getnext(l, &o, newmem); }
-                if (!more && newmem && sim_fault_fired() > fired_seen && retries < 1) { fired_seen = sim_fault_fired(); retries++; x.st.add("probe.walk_step_retried_after_enomem"); continue; }
+                if (!more && sim_fault_fired() > fired_seen) check_cursor_ptr(x, "data", d0, o.data);
+                if (!more && newmem && sim_fault_fired() > fired_seen && retries < 1) { fired_seen = sim_fault_fired(); retries++; failed = true; x.st.add("probe.walk_step_retried_after_enomem"); continue; }   // a step reported failure: so does the walk (the retry only probes that the cursor is still safe to use)
                 if (!more) { if (sim_fault_fired() > fired_seen) failed = true; break; }
                 Bytes e((const char *)o.data, o.size);
                 if (newmem) x.hold(o.data, e, "list.getnext(newmem)");
